@@ -1074,7 +1074,7 @@ impl<'a> Visitor<'a> {
         Ok(None)
     }
 
-    fn trim_included(&self, nodes: &[CssTreeIdx]) -> CssTreeIdx {
+    fn trim_included(&self, nodes: &mut Vec<CssTreeIdx>) -> CssTreeIdx {
         if nodes.is_empty() {
             return CssTree::ROOT;
         }
@@ -1112,7 +1112,12 @@ impl<'a> Visitor<'a> {
             return CssTree::ROOT;
         }
 
-        nodes[innermost_contiguous.unwrap()]
+        // the contiguous run of kept ancestors that reaches the root is used as it is; only the
+        // nodes inside it have to be copied
+        let innermost_contiguous = innermost_contiguous.unwrap();
+        let root = nodes[innermost_contiguous];
+        nodes.truncate(innermost_contiguous);
+        root
     }
 
     fn visit_at_root_rule(&mut self, mut at_root_rule: AstAtRootRule) -> SassResult<Option<Value>> {
@@ -1148,7 +1153,7 @@ impl<'a> Visitor<'a> {
             current_parent_idx = grandparent_idx;
         }
 
-        let root = self.trim_included(&included);
+        let root = self.trim_included(&mut included);
 
         // If we didn't exclude any rules, we don't need to use the copies we might
         // have created.
@@ -1165,14 +1170,11 @@ impl<'a> Visitor<'a> {
         }
 
         let inner_copy = if !included.is_empty() {
-            let inner_copy = self
-                .css_tree
-                .get(*included.first().unwrap())
-                .as_ref()
-                .map(CssStmt::copy_without_children);
-            let mut outer_copy = self.css_tree.add_stmt(inner_copy.unwrap(), None);
+            // copy the kept ancestors from the outermost one, which is attached to `root`, down
+            // to the innermost one, which becomes the parent of the body
+            let mut innermost_copy = root;
 
-            for node in &included[1..] {
+            for node in included.iter().rev() {
                 let copy = self
                     .css_tree
                     .get(*node)
@@ -1180,20 +1182,16 @@ impl<'a> Visitor<'a> {
                     .map(CssStmt::copy_without_children)
                     .unwrap();
 
-                let copy_idx = self.css_tree.add_stmt(copy, None);
-                self.css_tree.link_child_to_parent(outer_copy, copy_idx);
-
-                outer_copy = copy_idx;
+                innermost_copy = self.css_tree.add_stmt(copy, Some(innermost_copy));
             }
 
-            Some(outer_copy)
+            Some(innermost_copy)
+        } else if root == CssTree::ROOT {
+            None
         } else {
-            let inner_copy = self
-                .css_tree
-                .get(root)
-                .as_ref()
-                .map(CssStmt::copy_without_children);
-            inner_copy.map(|p| self.css_tree.add_stmt(p, None))
+            // every kept ancestor is part of the run that reaches the root: the body goes
+            // straight into the innermost of them
+            Some(root)
         };
 
         let body = mem::take(&mut at_root_rule.body);
